@@ -351,6 +351,19 @@ func (Area) Gen(r *rand.Rand, tier string, emit func(string)) {
 	for i := 0; i < nCR; i++ {
 		emit(genCR(r))
 	}
+	// the TARGET ends the call with every status code — all 16 named error codes incl. Canceled (1) and DeadlineExceeded (4),
+	// and two unnamed ones — while the client is connected and listening (close mode srv): the client must see a non-1000
+	// close whose reason carries that code. (Distinct from the client-went-away scenarios, where the bridge itself produces
+	// Canceled and nobody observes the close frame.)
+	for _, code := range errCodes {
+		msg := common.HexS(common.Pick(r, []string{"boom", "", "context canceled", "naïve ünïcödé message"}))
+		emit(fmt.Sprintf("ws 0 1 0 j - %s e%d:%s 0 srv 0", hexTexts([]string{"r1", "r2"}), code, msg))
+		emit(fmt.Sprintf("ws 0 1 0 j - - e%d:%s 0 srv 0", code, msg))
+		emit(fmt.Sprintf("ws 1 1 1 j tg:%s %s e%d:%s 0 srv 0", common.HexS("q"), hexTexts([]string{"r1"}), code, msg))
+		emit(fmt.Sprintf("ws 0 0 0 j - - e%d:%s 0 srv 0", code, msg))
+		emit(fmt.Sprintf("ws 0 1 1 bb bg:%s %s e%d:%s 0 srv 0", common.HexS("q"), hexTexts([]string{"r1"}), code, msg))
+	}
+	note(fmt.Sprintf("ws target-error-with-listening-client codes=%d x5", len(errCodes)))
 	for i := 0; i < nHTTP; i++ {
 		emit(genHTTP(r, maxMsgs))
 	}
